@@ -159,6 +159,40 @@ func (g *Gen) Sub(maxNodes int) *Node {
 	return g.node(1, false)
 }
 
+// Over draws 1..layers wrapper layers (any single-cause wrapper kind, with
+// their own hidden sub-trees) on top of an LGiven leaf: what a relay adds to
+// an error it received before passing it on.
+func (g *Gen) Over(layers int) *Node {
+	cur := &Node{K: LGiven}
+	g.budget = 4 * layers
+	for i := 0; i < layers; i++ {
+		var w [NumKinds]int
+		total := 0
+		for k := Kind(0); k < NumKinds; k++ {
+			if kinds[k].Arity == Wrap && g.enabled[k] && kinds[k].Weight > 0 && k != WUStack {
+				w[k] = kinds[k].Weight
+				total += w[k]
+			}
+		}
+		if total == 0 {
+			break
+		}
+		r := g.T.Draw(total)
+		k := Kind(0)
+		for ; k < NumKinds; k++ {
+			if r < w[k] {
+				break
+			}
+			r -= w[k]
+		}
+		g.budget += 3
+		n := g.fill(k, 2, false)
+		n.Kids = []*Node{cur}
+		cur = n
+	}
+	return cur
+}
+
 func (g *Gen) weight(k Kind, depth int, hidden bool) int {
 	if !g.enabled[k] {
 		return 0
